@@ -17,6 +17,8 @@ import DeapModel.Lemmas.C20Tools
 import DeapModel.Lemmas.C20MP
 import DeapModel.Lemmas.C20MPTotal
 import DeapModel.Lemmas.C20Misc
+import DeapModel.Lemmas.C20World
+import DeapModel.Lemmas.C20Ind
 import Mathlib.Analysis.SpecialFunctions.Trigonometric.Basic
 import Mathlib.Analysis.SpecialFunctions.Pow.Real
 import Mathlib.Data.Matrix.Mul
@@ -26,7 +28,7 @@ set_option linter.unusedTactic false
 set_option linter.unusedVariables false
 
 namespace C20
-open RealLike Bench BenchBin BenchTools MovingPeaks C20L
+open RealLike Bench BenchBin BenchTools MovingPeaks BenchInd C20L
 
 /-! ## 1. Continuous single-objective functions: value at the documented optimum -/
 
@@ -1202,5 +1204,817 @@ theorem mp_call_count (cfg : Config α) (period : Int) (basis : Option (List α 
           rw [this]
 
 end MPTotal
+
+/-! ## 10. Benchmark objects: the constructor's three `pfunc` paths, whole histories, several objects -/
+
+section Objects
+variable {α : Type} [RealLike α]
+
+/-- **`MovingPeaks.__init__`, the peak functions** (after fixes F33 / F34).  Whatever the form of `pfunc`
+— one function, a list of exactly `npeaks` functions, a longer pool — the object gets exactly `npeaks`
+peak functions, all taken from the pool `pfunc_pool`, which is the caller's function(s); a list of the
+right length is taken as it is without touching the random source, any other list costs exactly one
+`random.sample` draw, and a list shorter than `npeaks` is rejected. -/
+theorem mp_init_functions (pf : PFuncArg) (n : Nat) (t : Tape α) (fns pool : List PFunc) (t' : Tape α)
+    (h : initFunctions pf n t = some (fns, pool, t')) :
+    fns.length = n ∧ pool = poolOf pf ∧ (∀ f ∈ fns, f ∈ pool) ∧
+    (match pf with
+     | .one f => fns = List.replicate n f ∧ t' = t
+     | .many fs => (fs.length = n → fns = fs ∧ t' = t) ∧
+                   (fs.length ≠ n → n < fs.length ∧ ∃ idx, t = .sample idx :: t')) :=
+  initFunctions_spec pf n t fns pool t' h
+
+/-- the three paths are inhabited: one function; a list of the right length; a pool of three for two peaks
+(sample `[2, 0]`) -/
+example : initFunctions (α := ℝ) (.one .cone) 3 [] = some ([.cone, .cone, .cone], [.cone], []) ∧
+    initFunctions (α := ℝ) (.many [.cone, .function1]) 2 [] = some ([.cone, .function1], [.cone, .function1], []) ∧
+    initFunctions (α := ℝ) (.many [.cone, .function1, .sphere]) 2 [.sample [2, 0]]
+      = some ([.sphere, .cone], [.cone, .function1, .sphere], []) := by
+  have hs : sampleOK 3 2 [2, 0] = true := by decide
+  refine ⟨rfl, rfl, ?_⟩
+  simp [initFunctions, hs]
+
+/-- **The constructed object**: `npeaks` peaks of `dim` coordinates each, evaluation counter 0, the
+configured limits, the pool of the `pfunc` argument, every peak function from that pool. -/
+theorem mp_init_inv (base : Config α) (period : Int) (basis : Option (List α → α)) (pf : PFuncArg) (n : Nat)
+    (uh uw : α) (t : Tape α) (b : Bench α) (t' : Tape α)
+    (h : init base period basis pf n uh uw t = some (b, t'))
+    (hl : ∀ mn mx, base.limits = some (mn, mx) → mn ≤ (n : Int) ∧ (n : Int) ≤ mx) :
+    b.st.peaks.length = n ∧ DimOK base.dim b.st.peaks ∧ b.st.nevals = 0 ∧ b.cfg.pool = poolOf pf ∧
+    b.cfg.limits = base.limits ∧ b.cfg.dim = base.dim ∧ Inv n b := by
+  unfold init at h
+  split at h
+  · simp at h
+  · next fns pool t1 hf =>
+    split at h
+    · simp at h
+    · next peaks t2 hp =>
+      simp only [Option.some.injEq, Prod.mk.injEq] at h
+      obtain ⟨rfl, _⟩ := h
+      obtain ⟨f1, f2, f3, _⟩ := initFunctions_spec _ _ _ _ _ _ hf
+      obtain ⟨p1, p2, p3⟩ := mp_init_dim _ _ _ _ _ _ _ hp
+      have hlen : peaks.length = n := by rw [p1, f1]
+      refine ⟨hlen, p2, rfl, f2, rfl, rfl, ⟨?_, ?_⟩⟩
+      · show (match base.limits with
+          | none => peaks.length = n
+          | some (mn, mx) => mn ≤ (peaks.length : Int) ∧ (peaks.length : Int) ≤ mx)
+        cases hb : base.limits with
+        | none => exact hlen
+        | some lim => obtain ⟨mn, mx⟩ := lim; simp only; rw [hlen]; exact hl mn mx hb
+      · intro p hm
+        show p.fn ∈ pool
+        apply f3
+        rw [← p3]
+        exact List.mem_map_of_mem hm
+
+/-- the hypotheses are met: one function, three peaks, dimension 0 (no coordinate draws), fixed heights and widths -/
+example : (init (α := ℝ) cfgEx 0 none (.one .cone) 3 50 5 []).isSome = true ∧
+    (∀ mn mx, cfgEx.limits = some (mn, mx) → mn ≤ ((3 : Nat) : Int) ∧ ((3 : Nat) : Int) ≤ mx) := by
+  constructor
+  · have hh : ((50 : ℝ) < 0 ∨ (0 : ℝ) < 50) := by norm_num
+    have hw : ((5 : ℝ) < 0 ∨ (0 : ℝ) < 5) := by norm_num
+    have e3 : ∀ (pop : Tape ℝ → Option (ℝ × Tape ℝ)) (t : Tape ℝ), popGroups pop 0 3 t = some ([[], [], []], t) := by
+      intro pop t; rfl
+    simp only [init, initFunctions, initPeaks, cfgEx, initScalars, List.length_replicate, e3]
+    real_bridge
+    norm_num
+  · intro mn mx h; simp only [cfgEx, Option.some.injEq, Prod.mk.injEq] at h; obtain ⟨rfl, rfl⟩ := h; norm_num
+
+/-- **Count invariant for benchmark objects** (`mp_count_inv` along whole lives): an object built by the
+constructor — from any form of `pfunc` — and then taken through ANY history of `changePeaks()`, plain
+and counted evaluations (which trigger changes of their own every `period` evaluations) keeps its
+number of peaks inside `[minpeaks, maxpeaks]` (resp. at `npeaks` when no limits are configured), and
+all its peak functions come from the caller's `pfunc`. -/
+theorem mp_count_inv_bench (base : Config α) (period : Int) (basis : Option (List α → α)) (pf : PFuncArg) (n : Nat)
+    (uh uw : α) (t : Tape α) (b : Bench α) (t1 : Tape α)
+    (h : init base period basis pf n uh uw t = some (b, t1))
+    (hl : ∀ mn mx, base.limits = some (mn, mx) → mn ≤ (n : Int) ∧ (n : Int) ≤ mx)
+    (acts : List (Action α)) (s' : Slot α) (outs : List (Out α))
+    (hr : Slot.run acts ⟨b, t1⟩ = some (s', outs)) :
+    (base.limits = none → s'.b.st.peaks.length = n) ∧
+    (∀ mn mx, base.limits = some (mn, mx) →
+      mn ≤ (s'.b.st.peaks.length : Int) ∧ (s'.b.st.peaks.length : Int) ≤ mx) ∧
+    (∀ p ∈ s'.b.st.peaks, p.fn ∈ poolOf pf) := by
+  obtain ⟨_, _, _, hpool, hlim, _, hinv⟩ := mp_init_inv base period basis pf n uh uw t b t1 h hl
+  obtain ⟨i, hc⟩ := Slot.run_inv n acts ⟨b, t1⟩ s' outs hr hinv
+  have hc' : s'.b.cfg = b.cfg := hc
+  have hcount := i.count
+  rw [hc', hlim] at hcount
+  refine ⟨?_, ?_, ?_⟩
+  · intro h0; rw [h0] at hcount; exact hcount
+  · intro mn mx h1; rw [h1] at hcount; exact hcount
+  · intro p hp
+    have := i.pool p hp
+    rwa [hc', hpool] at this
+
+/-- the hypotheses are met: scenario-like configuration with limits [1, 3], a list of two functions for two
+peaks (taken as it is), dimension 0 so that the constructor needs no coordinate draws; one `changePeaks()`
+that adds a peak, then an evaluation -/
+example :
+    (∀ mn mx, cfgEx.limits = some (mn, mx) → mn ≤ ((2 : Nat) : Int) ∧ ((2 : Nat) : Int) ≤ mx) ∧
+    ((init (α := ℝ) cfgEx 0 none (.many [.cone, .function1]) 2 50 5 [.random (3/4), .random (1/2), .choice 0, .uniform 40,
+      .uniform 2, .gauss 0, .gauss 0, .gauss 0, .gauss 0, .gauss 0, .gauss 0]).bind
+        fun bt => Slot.run [.change] ⟨bt.1, bt.2⟩).isSome = true := by
+  constructor
+  · intro mn mx h; simp only [cfgEx, Option.some.injEq, Prod.mk.injEq] at h; obtain ⟨rfl, rfl⟩ := h; norm_num
+  · have hh : ((50 : ℝ) < 0 ∨ (0 : ℝ) < 50) := by norm_num
+    have hw : ((5 : ℝ) < 0 ∨ (0 : ℝ) < 5) := by norm_num
+    have e2 : ∀ (pop : Tape ℝ → Option (ℝ × Tape ℝ)) (t : Tape ℝ), popGroups pop 0 2 t = some ([[], []], t) := by
+      intro pop t; rfl
+    simp only [init, initFunctions, initPeaks, cfgEx, initScalars, List.length_cons, List.length_nil, e2]
+    real_bridge
+    norm_num [List.replicate, Slot.run, Slot.step, Bench.step, changePeaks, changeNumber, popRandom, half,
+      imin, addPeaks, popMany, popUniform, changeAll, changePeak, popGauss, reflect, shiftScale, e2]
+
+/-- **Instance independence.**  Several benchmark objects — e.g. built from one scenario dictionary and
+one list of peak functions — taken through any interleaved history of changes and evaluations: every
+object goes through exactly the history of the actions addressed to it (with its own random source),
+whatever is done to the others in between; in particular an object nobody addresses is unchanged.
+The model has value semantics, so this holds by construction; that the implementation behaves like
+the model (no list shared between objects or with the caller) is what the `mpworld` correspondence
+stream checks — it is what fix F33 established. -/
+theorem mp_instances_independent (ops : List (Nat × Action α)) (w w' : World α) (outs : List (Out α))
+    (h : World.run ops w = some (w', outs)) :
+    w'.length = w.length ∧
+    (∀ j s, w[j]? = some s →
+      ∃ s' outs_j, Slot.run (project j ops) s = some (s', outs_j) ∧ w'[j]? = some s') ∧
+    (∀ j, (∀ op ∈ ops, op.1 ≠ j) → w'[j]? = w[j]?) := by
+  obtain ⟨hl, hp⟩ := World.run_project ops w w' outs h
+  refine ⟨hl, hp, ?_⟩
+  intro j hj
+  have hproj : project j ops = [] := by
+    simp only [project, List.map_eq_nil_iff, List.filter_eq_nil_iff]
+    intro op hop; simpa using hj op hop
+  cases hs : w[j]? with
+  | none =>
+    have : w.length ≤ j := by
+      rcases Nat.lt_or_ge j w.length with hlt | hge
+      · rw [List.getElem?_eq_getElem hlt] at hs; simp at hs
+      · exact hge
+    exact List.getElem?_eq_none (by omega)
+  | some s =>
+    obtain ⟨s', oj, r1, r2⟩ := hp j s hs
+    rw [hproj] at r1
+    simp only [Slot.run, Option.some.injEq, Prod.mk.injEq] at r1
+    rw [r2, ← r1.1]
+
+/-- the hypothesis is met by two objects (same configuration, own tapes) and an interleaved history -/
+example : (World.run (α := ℝ) [(1, .eval []), (0, .eval []), (1, .eval [])]
+    [⟨⟨cfgEx, 0, none, ⟨[⟨.cone, [], 50, 5, []⟩], 0⟩, ⟨none, none, 0⟩⟩, []⟩,
+     ⟨⟨cfgEx, 0, none, ⟨[⟨.cone, [], 60, 5, []⟩], 0⟩, ⟨none, none, 0⟩⟩, []⟩]).isSome = true := by
+  simp [World.run, World.step, Slot.step, Bench.step, call, possibleValues, pyMax]
+
+end Objects
+
+/-- **Evaluation of a benchmark object = max over its peak functions** (`mp_eval_max` for objects): an
+uncounted evaluation returns the maximum of the separately evaluated peak (and basis) values and leaves the
+object and its random source untouched; a counted evaluation returns the maximum over the peaks it had
+BEFORE the change it may trigger. -/
+theorem mp_eval_max_bench (b b' : Bench ℝ) (x : List ℝ) (t t' : Tape ℝ) (o : Out ℝ) :
+    (b.step (.eval x) t = some (b', o, t') →
+      ∃ v, o = .value v ∧ b' = b ∧ t' = t ∧
+        v ∈ possibleValues b.st.peaks (b.basis.map fun f => f x) x ∧
+        ∀ w ∈ possibleValues b.st.peaks (b.basis.map fun f => f x) x, w ≤ v) ∧
+    (b.step (.evalCount x) t = some (b', o, t') →
+      ∃ v ch ne np er, o = .counted v ch ne np er ∧ ne = b.st.nevals + 1 ∧
+        v ∈ possibleValues b.st.peaks (b.basis.map fun f => f x) x ∧
+        ∀ w ∈ possibleValues b.st.peaks (b.basis.map fun f => f x) x, w ≤ v) := by
+  constructor
+  · intro h
+    simp only [Bench.step] at h
+    split at h
+    · simp at h
+    · next v hv =>
+      simp only [Option.some.injEq, Prod.mk.injEq] at h
+      obtain ⟨rfl, rfl, rfl⟩ := h
+      obtain ⟨m1, m2⟩ := (mp_eval_max _ _ _).2 v hv
+      exact ⟨v, rfl, rfl, rfl, m1, m2⟩
+  · intro h
+    simp only [Bench.step] at h
+    split at h
+    · simp at h
+    · next v ch st' t1 he =>
+      split at h
+      · simp at h
+      · next e' _ =>
+        simp only [Option.some.injEq, Prod.mk.injEq] at h
+        obtain ⟨_, rfl, _⟩ := h
+        obtain ⟨c1, c2, _⟩ := mp_call_step _ _ _ _ _ _ _ _ _ _ he
+        obtain ⟨m1, m2⟩ := (mp_eval_max _ _ _).2 v c1
+        exact ⟨v, ch, _, _, _, rfl, c2, m1, m2⟩
+
+example : ((⟨cfgEx, 0, none, ⟨[⟨.cone, [], 50, 5, []⟩], 0⟩, ⟨none, none, 0⟩⟩ : Bench ℝ).step (.eval []) []).isSome
+    = true := by
+  simp [Bench.step, call, possibleValues, pyMax]
+
+/-! ## 11. `globalMaximum`, peak functions at their own centre, the offline-error registers, `diversity(population)` -/
+
+/-- every peak function at its own centre: `cone` and `function1` give the height, `sphere` gives 0 -/
+theorem peakValue_centre (fn : PFunc) (p : List ℝ) (h w : ℝ) :
+    peakValue fn p p h w = match fn with | .cone => h | .function1 => h | .sphere => 0 := by
+  cases fn <;> simp only [peakValue, dist2_self] <;> real_bridge <;> simp
+
+/-- `globalMaximum()` returns one of the peaks' own centre values (with that peak's position), and no peak's
+own centre value exceeds it; with `cone` / `function1` peaks that is the largest height. -/
+theorem mp_global_max (peaks : List (Peak ℝ)) (g : ℝ × List ℝ) (h : globalMaximum peaks = some g) :
+    g ∈ potentialMax peaks ∧ (∀ q ∈ potentialMax peaks, q.1 ≤ g.1) ∧
+    ((∀ p ∈ peaks, p.fn ≠ .sphere) → (∃ p ∈ peaks, g.1 = p.height) ∧ ∀ p ∈ peaks, p.height ≤ g.1) := by
+  unfold globalMaximum at h
+  split at h
+  · simp at h
+  · next a t hpm =>
+    simp only [Option.some.injEq] at h
+    have := maxPairFold t a
+    rw [h, ← hpm] at this
+    refine ⟨this.1, this.2, ?_⟩
+    intro hns
+    have key : ∀ p ∈ peaks, peakValue p.fn p.pos p.pos p.height p.width = p.height := by
+      intro p hp
+      rw [peakValue_centre]
+      have := hns p hp
+      cases hf : p.fn <;> simp_all
+    constructor
+    · obtain ⟨p, hp, e⟩ := List.mem_map.mp this.1
+      exact ⟨p, hp, by rw [← e]; exact key p hp⟩
+    · intro p hp
+      have := this.2 (peakValue p.fn p.pos p.pos p.height p.width, p.pos) (List.mem_map.mpr ⟨p, hp, rfl⟩)
+      simpa [key p hp] using this
+
+example : globalMaximum [(⟨.cone, [1], 50, 5, [0]⟩ : Peak ℝ)] = some (peakValue .cone [1] [1] 50 5, [1]) := rfl
+
+/-- `maximums()` lists only peaks' own centre values, each of them equal to the landscape's value at that
+position (the peak is visible there). -/
+theorem mp_maximums_visible (peaks : List (Peak ℝ)) (basis : Option (List ℝ → ℝ)) (vp : ℝ × List ℝ)
+    (h : vp ∈ maximums peaks basis) :
+    vp ∈ potentialMax peaks ∧ call peaks (basis.map fun f => f vp.2) vp.2 = some vp.1 := by
+  unfold maximums at h
+  rw [mem_sortDesc, List.mem_filter] at h
+  obtain ⟨hm, hv⟩ := h
+  refine ⟨hm, ?_⟩
+  split at hv
+  · simp at hv
+  · next c hc =>
+    simp only [Bool.not_eq_true', decide_eq_false_iff_not, real_lt, not_lt] at hv
+    obtain ⟨m1, m2⟩ := (mp_eval_max _ _ _).2 c hc
+    obtain ⟨p, hp, rfl⟩ := List.mem_map.mp hm
+    have : peakValue p.fn p.pos p.pos p.height p.width ≤ c :=
+      m2 _ (by simp only [possibleValues, List.mem_append, List.mem_map]; exact Or.inl ⟨p, hp, rfl⟩)
+    rw [hc]; congr 1; linarith
+
+example : (peakValue .cone [1] [1] 50 5, [(1 : ℝ)]) ∈ maximums [(⟨.cone, [1], 50, 5, [0]⟩ : Peak ℝ)] none := by
+  simp [maximums, potentialMax, call, possibleValues, pyMax, sortDesc, insertDesc]
+
+/-- one counted evaluation on the offline-error registers: the current error is non-negative, at most the
+distance of this fitness to the optimum in force, never above the previous error while the optimum stands,
+and it is what is added to the offline sum. -/
+theorem mp_error_step (peaks : List (Peak ℝ)) (e e' : ErrState ℝ) (v : ℝ) (ch : Bool)
+    (h : errStep peaks e v ch = some e') (hprev : ∀ er, e.error = some er → 0 ≤ er) :
+    ∃ er o, e'.error = some er ∧ 0 ≤ er ∧ er ≤ |v - o| ∧ e'.offline = e.offline + er ∧
+      (e.optimum = some o ∨ (e.optimum = none ∧ ∃ g, globalMaximum peaks = some g ∧ g.1 = o)) ∧
+      (∀ er0, e.optimum ≠ none → e.error = some er0 → er ≤ er0) ∧
+      (e'.optimum = if ch then none else some o) := by
+  unfold errStep at h
+  cases ho : e.optimum with
+  | some o =>
+    simp only [ho] at h
+    cases he : e.error with
+    | none => simp [he] at h
+    | some er0 =>
+      simp only [he, Option.some.injEq] at h
+      have h0 := hprev er0 he
+      rw [← h]
+      refine ⟨fmin er0 (RealLike.abs (v - o)), o, rfl, ?_, ?_, rfl, Or.inl rfl, ?_, rfl⟩
+      · unfold fmin; real_bridge; split <;> [exact abs_nonneg _; exact h0]
+      · unfold fmin; real_bridge; split <;> [exact le_refl _; (rename_i hlt; linarith [not_lt.mp hlt])]
+      · intro er1 _ he1
+        simp only [Option.some.injEq] at he1; subst he1
+        unfold fmin; real_bridge; split <;> [(rename_i hlt; linarith); exact le_refl _]
+  | none =>
+    simp only [ho] at h
+    cases hg : globalMaximum peaks with
+    | none => simp [hg] at h
+    | some g =>
+      simp only [hg, Option.map_some, Option.some.injEq] at h
+      rw [← h]
+      refine ⟨fmin (RealLike.abs (v - g.1)) (RealLike.abs (v - g.1)), g.1, rfl, ?_, ?_, rfl,
+        Or.inr ⟨rfl, g, rfl, rfl⟩, fun _ hne => absurd rfl hne, rfl⟩
+      · unfold fmin; real_bridge; split <;> exact abs_nonneg _
+      · unfold fmin; real_bridge; split <;> exact le_refl _
+
+example : (errStep [(⟨.cone, [1], 50, 5, [0]⟩ : Peak ℝ)] ⟨none, none, 0⟩ 3 false).isSome = true ∧
+    ∀ er, (⟨none, none, 0⟩ : ErrState ℝ).error = some er → 0 ≤ er := by
+  constructor
+  · simp [errStep, globalMaximum, potentialMax]
+  · intro er h; simp at h
+
+/-- `movingpeaks.diversity(population)` is a square root, hence non-negative -/
+theorem popDiversity_nonneg (pop : List (List ℝ)) (v : ℝ) (h : popDiversity pop = some v) : 0 ≤ v := by
+  unfold popDiversity at h
+  split at h
+  · simp at h
+  · simp only [Option.some.injEq] at h; rw [← h]; real_bridge; exact Real.sqrt_nonneg _
+
+example : ∃ v, popDiversity [[(1 : ℝ), 2], [3, 4]] = some v := ⟨_, rfl⟩
+
+/-! ## 12. Decorator histories: the parameter installed last is the one in force -/
+
+/-- **`translate`, any history.**  However the function was decorated and whatever setter calls and
+evaluations came before, after `evaluate.translate(t)` (and any number of evaluations) the wrapped function
+receives `x - t` for the vector `t` passed LAST — not an earlier one, not the one of decoration time. -/
+theorem translate_history (v0 : List ℝ) (pre : List (HOp (List ℝ) (List ℝ))) (t : List ℝ) (xs : List (List ℝ))
+    (x : List ℝ) (outs : List (List ℝ)) (hl : t.length = x.length)
+    (h : translateHist v0 (pre ++ HOp.set t :: (xs.map HOp.call ++ [HOp.call x])) = some outs) :
+    outs.getLast? = some (List.zipWith (· - ·) x t) ∧
+    List.zipWith (· + ·) (List.zipWith (· - ·) x t) t = x := by
+  obtain ⟨s, y, e1, e2, e3⟩ := runHist_last_set _ _ _ _ _ _ _ _ h
+  simp only [Option.some.injEq] at e1 e2
+  subst e1
+  refine ⟨?_, zipWith_sub_add x t hl⟩
+  rw [e3, ← e2]
+  simp only [translateArg, List.map_zip_eq_zipWith]
+  rfl
+
+example : translateHist [(1 : ℝ)] [.call [5], .set [2], .call [5]] = some [[5 - 1], [5 - 2]] := by
+  simp [translateHist, runHist, translateArg]
+
+/-- **`scale`, any history**: after `evaluate.scale(f)` with non-zero factors the wrapped function receives
+`x / f` for the factor passed last. -/
+theorem scale_history (f0 : List ℝ) (pre : List (HOp (List ℝ) (List ℝ))) (f : List ℝ) (xs : List (List ℝ))
+    (x : List ℝ) (outs : List (List ℝ)) (hnz : ∀ c ∈ f, c ≠ 0) (hl : f.length = x.length)
+    (h : scaleHist f0 (pre ++ HOp.set f :: (xs.map HOp.call ++ [HOp.call x])) = some outs) :
+    outs.getLast? = some (List.zipWith (· / ·) x f) ∧
+    List.zipWith (· * ·) (List.zipWith (· / ·) x f) f = x := by
+  unfold scaleHist at h
+  split at h
+  · simp at h
+  · next r0 _ =>
+    obtain ⟨s, y, e1, e2, e3⟩ := runHist_last_set _ _ _ _ _ _ _ _ h
+    obtain ⟨a1, _, a3⟩ := scale_arg (fun l => l) f x hnz hl
+    refine ⟨?_, a3⟩
+    simp only [Option.some.injEq] at e2
+    rw [e3, ← e2]
+    simp only [scale, scaleArg, e1, Option.map_some, Option.some.injEq] at a1
+    rw [← a1]
+
+example : (∀ c ∈ ([2] : List ℝ), c ≠ 0) ∧ ([2] : List ℝ).length = ([6] : List ℝ).length := by simp
+
+/-- **`rotate`, any history** (this is what seeded change C20-r5m2 breaks in the implementation): after
+`evaluate.rotate(R)` — with `numpy.linalg.inv` meeting its contract on `R` — the wrapped function receives
+`R⁻¹ x` for the matrix passed last, whatever matrix (or the same object with other contents) was installed
+before. -/
+theorem rotate_history {n : Nat} (inv : List (List ℝ) → List (List ℝ)) (R0 : List (List ℝ))
+    (pre : List (HOp (List (List ℝ)) (List ℝ))) (R Rinv : Matrix (Fin n) (Fin n) ℝ)
+    (hcontract : inv (rows R) = rows Rinv) (hinv : R * Rinv = 1)
+    (xs : List (List ℝ)) (v : Fin n → ℝ) (outs : List (List ℝ))
+    (h : rotateHist inv R0 (pre ++ HOp.set (rows R) :: (xs.map HOp.call ++ [HOp.call (List.ofFn v)])) = some outs) :
+    outs.getLast? = some (List.ofFn (Rinv.mulVec v)) ∧ R.mulVec (Rinv.mulVec v) = v := by
+  obtain ⟨s, y, e1, e2, e3⟩ := runHist_last_set _ _ _ _ _ _ _ _ h
+  simp only [Option.some.injEq] at e1
+  subst e1
+  rw [hcontract, matVec_rows] at e2
+  simp only [Option.some.injEq] at e2
+  refine ⟨by rw [e3, ← e2], ?_⟩
+  rw [Matrix.mulVec_mulVec, hinv, Matrix.one_mulVec]
+
+example : (fun _ => rows (1 : Matrix (Fin 2) (Fin 2) ℝ)) (rows (1 : Matrix (Fin 2) (Fin 2) ℝ))
+      = rows (1 : Matrix (Fin 2) (Fin 2) ℝ) ∧ (1 : Matrix (Fin 2) (Fin 2) ℝ) * 1 = 1 := ⟨rfl, by simp⟩
+
+/-- **Stacked decorators, setters are local**: on `@translate @rotate @scale` each setter replaces its own
+decorator's parameter and leaves the other two alone. -/
+theorem stack_setters_local (inv : List (List ℝ) → List (List ℝ)) (st st' : StackState ℝ) (p : StackParam ℝ)
+    (h : stackInstall inv st p = some st') :
+    match p with
+    | .t v => st' = { st with vector := v }
+    | .r R => st' = { st with minv := inv R }
+    | .s f => st'.vector = st.vector ∧ st'.minv = st.minv ∧ scaleFactor f = some st'.recip := by
+  cases p with
+  | t v => simp only [stackInstall, Option.some.injEq] at h; exact h.symm
+  | r R => simp only [stackInstall, Option.some.injEq] at h; exact h.symm
+  | s f =>
+    simp only [stackInstall, Option.map_eq_some_iff] at h
+    obtain ⟨r, hr, rfl⟩ := h
+    exact ⟨rfl, rfl, hr⟩
+
+example : stackInstall (α := ℝ) id ⟨[1], [[1]], [1]⟩ (.t [5]) = some ⟨[5], [[1]], [1]⟩ := rfl
+
+/-- **Stacked decorators, any history**: an evaluation after any interleaving of the three setters and earlier
+evaluations hands the innermost function `scale⁻¹(rotate⁻¹(translate⁻¹ x))` under the parameters in force —
+those of `stackStateAfter`, each one the argument of the last call of its own setter. -/
+theorem stack_history (inv : List (List ℝ) → List (List ℝ)) (st : StackState ℝ)
+    (pre : List (HOp (StackParam ℝ) (List ℝ))) (x : List ℝ) (outs : List (List ℝ))
+    (h : stackHist inv st (pre ++ [HOp.call x]) = some outs) :
+    ∃ st' y, stackStateAfter inv st pre = some st' ∧ stackApply st' x = some y ∧ outs.getLast? = some y :=
+  stackHist_last inv st pre x outs h
+
+example : (stackHist (α := ℝ) id ⟨[1], [[1]], [1]⟩ ([.set (.t [5])] ++ [.call [7]])).isSome = true := by
+  simp [stackHist, stackInstall, stackApply, matVec, translateArg]
+
+/-! ## 13. Quality indicators (`benchmarks/tools.py:262-327`) -/
+
+/-- `igd` is a mean of distances: non-negative. -/
+theorem igd_nonneg (A Z : List (List ℝ)) (v : ℝ) (h : igd A Z = some v) : 0 ≤ v := by
+  obtain ⟨_, ds, f2, rfl, _⟩ := igd_spec A Z v h
+  apply div_nonneg _ (Nat.cast_nonneg _)
+  apply sum_nonneg_of_mem
+  intro d hd
+  obtain ⟨z, _, ⟨a, _, _, e⟩, _⟩ := forall2_mem_right f2 d hd
+  rw [e]; exact Real.sqrt_nonneg _
+
+/-- **`igd(A, Z) = 0` exactly when every reference point of `Z` is a point of `A`.** -/
+theorem igd_eq_zero_iff (A Z : List (List ℝ)) (v : ℝ) (h : igd A Z = some v) :
+    v = 0 ↔ ∀ z ∈ Z, z ∈ A := by
+  obtain ⟨hZ, ds, f2, rfl, hlen⟩ := igd_spec A Z v h
+  have hnn : ∀ d ∈ ds, 0 ≤ d := by
+    intro d hd
+    obtain ⟨z, _, ⟨a, _, _, e⟩, _⟩ := forall2_mem_right f2 d hd
+    rw [e]; exact Real.sqrt_nonneg _
+  have hpos : (0 : ℝ) < (ds.length : ℝ) := by
+    rw [hlen]; exact Nat.cast_pos.mpr (List.length_pos_of_ne_nil hZ)
+  constructor
+  · intro h0
+    have hs : ds.sum = 0 := by
+      have := div_eq_zero_iff.mp h0
+      rcases this with h1 | h1
+      · exact h1
+      · linarith
+    have hall := sum_eq_zero_of_nonneg ds hnn hs
+    intro z hz
+    obtain ⟨d, hd, ⟨a, ha, hla, e⟩, _⟩ := forall2_mem_left f2 z hz
+    have hd0 := hall d hd
+    rw [hd0] at e
+    have : d2 a z = 0 := by
+      have := (Real.sqrt_eq_zero (d2_nonneg a z)).mp e.symm
+      exact this
+    rw [← d2_eq_zero a z hla this]; exact ha
+  · intro hsub
+    have hall : ∀ d ∈ ds, d = 0 := by
+      intro d hd
+      obtain ⟨z, hz, _, hle⟩ := forall2_mem_right f2 d hd
+      have := hle z (hsub z hz)
+      rw [d2_self, Real.sqrt_zero] at this
+      linarith [hnn d hd]
+    rw [sum_zero_of_all_zero ds hall]; simp
+
+example : igd [[(0 : ℝ), 1]] [[0, 1]] = some (RealLike.sum [RealLike.sqrt (RealLike.sum [(0 - 0) * (0 - 0), (1 - 1) * (1 - 1)])] / RealLike.ofNat 1) := rfl
+
+/-- `convergence` is a mean of distances: non-negative. -/
+theorem convergence_nonneg (front opt : List (List ℝ)) (v : ℝ) (h : convergence front opt = some v) : 0 ≤ v := by
+  obtain ⟨_, ds, f2, rfl, _⟩ := convergence_spec front opt v h
+  apply div_nonneg _ (Nat.cast_nonneg _)
+  apply sum_nonneg_of_mem
+  intro d hd
+  obtain ⟨p, _, m, e, _⟩ := forall2_mem_right f2 d hd
+  rw [e]; exact Real.sqrt_nonneg _
+
+/-- **`convergence(front, optimal) = 0` exactly when every point of the front is on the optimal front**
+(points of one dimension). -/
+theorem convergence_eq_zero_iff (front opt : List (List ℝ)) (v : ℝ) (h : convergence front opt = some v)
+    (hdim : ∀ p ∈ front, ∀ o ∈ opt, p.length = o.length) :
+    v = 0 ↔ ∀ p ∈ front, p ∈ opt := by
+  obtain ⟨hF, ds, f2, rfl, hlen⟩ := convergence_spec front opt v h
+  have hnn : ∀ d ∈ ds, 0 ≤ d := by
+    intro d hd
+    obtain ⟨p, _, m, e, _⟩ := forall2_mem_right f2 d hd
+    rw [e]; exact Real.sqrt_nonneg _
+  have hpos : (0 : ℝ) < (ds.length : ℝ) := by
+    rw [hlen]; exact Nat.cast_pos.mpr (List.length_pos_of_ne_nil hF)
+  constructor
+  · intro h0
+    have hs : ds.sum = 0 := by
+      rcases div_eq_zero_iff.mp h0 with h1 | h1
+      · exact h1
+      · linarith
+    have hall := sum_eq_zero_of_nonneg ds hnn hs
+    intro p hp
+    obtain ⟨d, hd, m, e, ⟨o, ho, _, em⟩, _⟩ := forall2_mem_left f2 p hp
+    rw [hall d hd, em] at e
+    have : d2 p o = 0 := (Real.sqrt_eq_zero (d2_nonneg p o)).mp e.symm
+    rw [d2_eq_zero p o (hdim p hp o ho) this]; exact ho
+  · intro hsub
+    have hall : ∀ d ∈ ds, d = 0 := by
+      intro d hd
+      obtain ⟨p, hp, m, e, ⟨o, _, _, em⟩, hle⟩ := forall2_mem_right f2 d hd
+      have h1 := hle p (hsub p hp)
+      rw [d2_self] at h1
+      have h2 : 0 ≤ m := by rw [em]; exact d2_nonneg _ _
+      have : m = 0 := le_antisymm h1 h2
+      rw [e, this, Real.sqrt_zero]
+    rw [sum_zero_of_all_zero ds hall]; simp
+
+example : (convergence [[(0 : ℝ), 1]] [[0, 1], [1, 0]]).isSome = true ∧
+    ∀ p ∈ [[(0 : ℝ), 1]], ∀ o ∈ [[(0 : ℝ), 1], [1, 0]], p.length = o.length := by
+  refine ⟨rfl, ?_⟩
+  intro p hp o ho; simp at hp ho; rcases ho with rfl | rfl <;> simp [hp]
+
+/-- `diversity` of a one-point front is the sum of its distances to the two extreme points. -/
+theorem diversity_single (p first last : ℝ × ℝ) :
+    diversity [p] first last = some (hyp p first + hyp p last) := by
+  simp [diversity, lastOr]
+
+/-- `diversity` (Deb's spread Δ) is non-negative. -/
+theorem diversity_nonneg (front : List (ℝ × ℝ)) (first last : ℝ × ℝ) (v : ℝ)
+    (h : diversity front first last = some v) : 0 ≤ v := by
+  unfold diversity at h
+  split at h
+  · simp at h
+  · next p0 rest =>
+    simp only at h
+    by_cases hr : rest.isEmpty = true
+    · simp only [hr, if_true, Option.some.injEq] at h
+      rw [← h]; real_bridge
+      have := hyp_nonneg p0 first; have := hyp_nonneg (lastOr p0 (p0 :: rest)) last; linarith
+    · simp only [hr, Bool.false_eq_true, if_false] at h
+      split at h
+      · simp only [Option.some.injEq] at h
+        rw [← h]
+        real_bridge
+        have h1 := hyp_nonneg p0 first
+        have h2 := hyp_nonneg (lastOr p0 (p0 :: rest)) last
+        have h3 : 0 ≤ (gaps (p0 :: rest)).sum := sum_nonneg_of_mem _ (gaps_nonneg _)
+        have h4 : 0 ≤ ((gaps (p0 :: rest)).map fun d => |d - (gaps (p0 :: rest)).sum / ((gaps (p0 :: rest)).length : ℝ)|).sum :=
+          sum_map_nonneg _ _ (fun _ _ => abs_nonneg _)
+        have h5 : 0 ≤ ((gaps (p0 :: rest)).length : ℝ) * ((gaps (p0 :: rest)).sum / ((gaps (p0 :: rest)).length : ℝ)) :=
+          mul_nonneg (Nat.cast_nonneg _) (div_nonneg h3 (Nat.cast_nonneg _))
+        apply div_nonneg <;> linarith
+      · simp at h
+
+example : diversity [((0 : ℝ), (1 : ℝ))] (0, 1) (1, 0) = some (hyp (0, 1) (0, 1) + hyp (0, 1) (1, 0)) :=
+  diversity_single _ _ _
+
+/-- **A perfectly spread front has diversity 0**: extreme points reached (`d_f = d_l = 0`) and all
+consecutive distances equal to some `g > 0`. -/
+theorem diversity_uniform (p0 p1 : ℝ × ℝ) (rest : List (ℝ × ℝ)) (first last : ℝ × ℝ) (g : ℝ) (hg : 0 < g)
+    (hf : hyp p0 first = 0) (hlast : hyp (lastOr p0 (p0 :: p1 :: rest)) last = 0)
+    (hgap : ∀ d ∈ gaps (p0 :: p1 :: rest), d = g) :
+    diversity (p0 :: p1 :: rest) first last = some 0 := by
+  have hlenpos : (0 : ℝ) < ((gaps (p0 :: p1 :: rest)).length : ℝ) := by
+    simp [gaps]; positivity
+  have hsum : (gaps (p0 :: p1 :: rest)).sum = ((gaps (p0 :: p1 :: rest)).length : ℝ) * g :=
+    sum_const_of_all _ g hgap
+  have hdm : (gaps (p0 :: p1 :: rest)).sum / ((gaps (p0 :: p1 :: rest)).length : ℝ) = g := by
+    rw [hsum]; field_simp
+  have hdi : ((gaps (p0 :: p1 :: rest)).map fun d => |d - g|).sum = 0 := by
+    apply sum_map_eq_zero
+    intro d hd; rw [hgap d hd]; simp
+  unfold diversity
+  simp only [List.isEmpty_cons, Bool.false_eq_true, if_false]
+  real_bridge
+  rw [hf, hlast, hdm, hdi]
+  have hden : (0 : ℝ) < 0 + 0 + ((gaps (p0 :: p1 :: rest)).length : ℝ) * g := by
+    have := mul_pos hlenpos hg; linarith
+  push_cast
+  rw [if_pos (Or.inr hden)]
+  simp
+
+/-- the hypotheses are met by the three equally spaced points (0,2), (1,1), (2,0) between the extremes (0,2), (2,0) -/
+example : hyp ((0 : ℝ), (2 : ℝ)) (0, 2) = 0 ∧
+    hyp (lastOr ((0 : ℝ), (2 : ℝ)) [((0 : ℝ), (2 : ℝ)), (1, 1), (2, 0)]) (2, 0) = 0 ∧
+    ∀ d ∈ gaps [((0 : ℝ), (2 : ℝ)), (1, 1), (2, 0)], d = Real.sqrt 2 := by
+  refine ⟨by rw [hyp_eq]; simp, by simp only [lastOr]; rw [hyp_eq]; simp, ?_⟩
+  intro d hd
+  simp only [gaps, List.tail_cons, List.zip_cons_cons, List.zip_nil_right, List.map_cons, List.map_nil,
+    List.mem_cons, List.not_mem_nil, or_false] at hd
+  rcases hd with rfl | rfl <;> (rw [hyp_eq]; norm_num)
+
+/-! ## 14. Symbolic-regression targets (`gp.py`): distinguished values, bounds, symmetries -/
+
+/-- `kotanchek` peaks at (1, 2.5) with value 1/3.2 and is positive everywhere. -/
+theorem kotanchek_max (x0 x1 : ℝ) (t : List ℝ) :
+    kotanchek [(1 : ℝ), 5 / 2] = some (1 / (32 / 10)) ∧
+    ∃ v, kotanchek (x0 :: x1 :: t) = some v ∧ 0 < v ∧ v ≤ 1 / (32 / 10) := by
+  constructor
+  · simp only [kotanchek]; real_bridge; norm_num
+  · refine ⟨_, rfl, ?_, ?_⟩
+    · real_bridge; push_cast; positivity
+    · real_bridge; push_cast
+      have h1 : Real.exp (-(x0 - 1) ^ 2) ≤ 1 := by
+        rw [Real.exp_le_one_iff]; nlinarith [sq_nonneg (x0 - 1)]
+      have h2 : (32 / 10 : ℝ) ≤ 32 / 10 + (x1 - 25 / 10) ^ 2 := by nlinarith [sq_nonneg (x1 - 25 / 10)]
+      have h3 : (0 : ℝ) < 32 / 10 + (x1 - 25 / 10) ^ 2 := by positivity
+      rw [div_le_div_iff₀ h3 (by norm_num)]
+      nlinarith [Real.exp_pos (-(x0 - 1) ^ 2)]
+
+/-- `salustowicz_1d` vanishes at 0; `salustowicz_2d` is `salustowicz_1d(x₁)·(x₂ − 5)` and vanishes on `x₂ = 5`. -/
+theorem salustowicz_facts (x0 x1 : ℝ) (t : List ℝ) :
+    salustowicz1d [(0 : ℝ)] = some 0 ∧
+    salustowicz2d (x0 :: x1 :: t) = some (salustowiczCore x0 * (x1 - 5)) ∧
+    salustowicz1d (x0 :: t) = some (salustowiczCore x0) ∧
+    salustowicz2d (x0 :: 5 :: t) = some 0 := by
+  refine ⟨?_, rfl, rfl, ?_⟩
+  · simp only [salustowicz1d, salustowiczCore]; real_bridge; simp
+  · simp only [salustowicz2d]; real_bridge; simp
+
+/-- `unwrapped_ball` takes its maximum 2 at (3, …, 3) and lies in (0, 2] everywhere, in every dimension. -/
+theorem unwrapped_ball_max (n : Nat) (x : List ℝ) :
+    unwrappedBall (List.replicate n (3 : ℝ)) = 2 ∧ 0 < unwrappedBall x ∧ unwrappedBall x ≤ 2 := by
+  have hnn : 0 ≤ (x.map fun d => (d - 3) ^ 2).sum := sum_map_nonneg _ _ (fun _ _ => sq_nonneg _)
+  refine ⟨?_, ?_, ?_⟩
+  · unfold unwrappedBall; real_bridge
+    rw [sum_map_eq_zero _ _ (by intro p hp; rw [List.eq_of_mem_replicate hp]; norm_num)]
+    norm_num
+  · unfold unwrappedBall; real_bridge; push_cast; positivity
+  · unfold unwrappedBall; real_bridge; push_cast
+    rw [div_le_iff₀ (by positivity)]; linarith
+
+/-- `rational_polynomial` vanishes on `x₁ = 1` and on `x₃ = 1` (wherever it is defined). -/
+theorem rational_polynomial_zero (x0 x1 x2 : ℝ) (t : List ℝ) (v : ℝ)
+    (h : rationalPolynomial (x0 :: x1 :: x2 :: t) = some v) (h1 : x0 = 1 ∨ x2 = 1) : v = 0 := by
+  simp only [rationalPolynomial] at h
+  split at h
+  · simp only [Option.some.injEq] at h
+    rw [← h]; real_bridge
+    rcases h1 with rfl | rfl <;> simp
+  · simp at h
+
+example : (rationalPolynomial [(1 : ℝ), 1, 2]).isSome = true := by
+  simp only [rationalPolynomial]
+  real_bridge
+  rw [if_pos (by norm_num)]
+  rfl
+
+/-- `sin_cos`: |f| ≤ 6, the bound is attained at (π/2, 0), odd in `x₁`, even in `x₂`. -/
+theorem sin_cos_facts (x0 x1 : ℝ) (t : List ℝ) :
+    (∃ v, sinCos (x0 :: x1 :: t) = some v ∧ |v| ≤ 6) ∧
+    sinCos [Real.pi / 2, (0 : ℝ)] = some 6 ∧
+    sinCos [-x0, x1] = (sinCos [x0, x1]).map (fun v => -v) ∧
+    sinCos [x0, -x1] = sinCos [x0, x1] := by
+  refine ⟨⟨_, rfl, ?_⟩, ?_, ?_, ?_⟩
+  · real_bridge; push_cast
+    rw [abs_mul, abs_mul]
+    have h1 := Real.abs_sin_le_one x0
+    have h2 := Real.abs_cos_le_one x1
+    have h3 : |(6 : ℝ)| = 6 := by norm_num
+    rw [h3]
+    have : |Real.sin x0| * |Real.cos x1| ≤ 1 := by
+      calc |Real.sin x0| * |Real.cos x1| ≤ 1 * 1 := mul_le_mul h1 h2 (abs_nonneg _) (by norm_num)
+        _ = 1 := by ring
+    nlinarith [abs_nonneg (Real.sin x0), abs_nonneg (Real.cos x1)]
+  · simp only [sinCos]; real_bridge; simp
+  · simp only [sinCos, Option.map_some]; real_bridge; simp
+  · simp only [sinCos]; real_bridge; simp
+
+/-- `ripple` is symmetric in its two arguments; at (3, 3) it is 2 sin 1, at (4, 4) it is 1. -/
+theorem ripple_facts (x0 x1 : ℝ) :
+    ripple [x0, x1] = ripple [x1, x0] ∧ ripple [(3 : ℝ), 3] = some (2 * Real.sin 1) ∧ ripple [(4 : ℝ), 4] = some 1 := by
+  refine ⟨?_, ?_, ?_⟩
+  · simp only [ripple]; real_bridge; push_cast; congr 1; ring_nf
+  · simp only [ripple]; real_bridge; norm_num
+  · simp only [ripple]; real_bridge; norm_num
+
+/-- `rational_polynomial2` is defined everywhere (its denominator is at least 10) and vanishes at (3, 3). -/
+theorem rational_polynomial2_facts (x0 x1 : ℝ) (t : List ℝ) :
+    (∃ v, rationalPolynomial2 (x0 :: x1 :: t) = some v ∧
+      v * ((x1 - 2) ^ 4 + 10) = (x0 - 3) ^ 4 + (x1 - 3) ^ 3 - (x1 - 3)) ∧
+    rationalPolynomial2 [(3 : ℝ), 3] = some 0 := by
+  constructor
+  · refine ⟨_, rfl, ?_⟩
+    real_bridge; push_cast
+    have : (x1 - 2) ^ 4 + 10 ≠ 0 := by positivity
+    field_simp
+  · simp only [rationalPolynomial2]; real_bridge; norm_num
+
+
+/-! ## 15. Remaining functions: `schaffer_mo`, `schwefel`, `h1`, `shekel`, `royal_road2`, `diversity(population)` -/
+
+/-- `schaffer_mo` is (x₁², (x₁−2)²); on its Pareto set 0 ≤ x₁ ≤ 2 the objectives satisfy √f₁ + √f₂ = 2. -/
+theorem schaffer_mo_front (x0 : ℝ) (t : List ℝ) :
+    schafferMo (x0 :: t) = some [x0 ^ 2, (x0 - 2) ^ 2] ∧
+    (0 ≤ x0 → x0 ≤ 2 → Real.sqrt (x0 ^ 2) + Real.sqrt ((x0 - 2) ^ 2) = 2) := by
+  constructor
+  · simp only [schafferMo]; real_bridge
+  · intro h0 h2
+    rw [Real.sqrt_sq h0, Real.sqrt_sq_eq_abs, abs_of_nonpos (by linarith)]; ring
+
+example : (0 : ℝ) ≤ 1 ∧ (1 : ℝ) ≤ 2 := by norm_num
+
+/-- `schwefel`: at the origin the value is 418.9828872724339·N, and everywhere
+418.98…·N − Σ|xᵢ| ≤ f(x) ≤ 418.98…·N + Σ|xᵢ| (|sin| ≤ 1); the documented optimum near 420.9687 is a numeric test. -/
+theorem schwefel_bounds (x : List ℝ) (n : Nat) :
+    schwefel (List.replicate n (0 : ℝ)) = 4189828872724339 / 10000000000000 * n ∧
+    |schwefel x - 4189828872724339 / 10000000000000 * x.length| ≤ (x.map fun v => |v|).sum := by
+  constructor
+  · unfold schwefel; real_bridge
+    rw [sum_map_eq_zero _ _ (by intro p hp; rw [List.eq_of_mem_replicate hp]; simp)]
+    simp
+  · unfold schwefel; real_bridge; push_cast
+    have key : |(x.map fun v => v * Real.sin (Real.sqrt |v|)).sum| ≤ (x.map fun v => |v|).sum := by
+      induction x with
+      | nil => simp
+      | cons a t ih =>
+        simp only [List.map_cons, List.sum_cons]
+        have h1 : |a * Real.sin (Real.sqrt |a|)| ≤ |a| := by
+          rw [abs_mul]
+          have := Real.abs_sin_le_one (Real.sqrt |a|)
+          nlinarith [abs_nonneg a]
+        calc |a * Real.sin (Real.sqrt |a|) + (t.map fun v => v * Real.sin (Real.sqrt |v|)).sum|
+            ≤ |a * Real.sin (Real.sqrt |a|)| + |(t.map fun v => v * Real.sin (Real.sqrt |v|)).sum| := abs_add_le _ _
+          _ ≤ |a| + (t.map fun v => |v|).sum := by linarith
+    have : 4189828872724339 / 10000000000000 * (x.length : ℝ) - (x.map fun v => v * Real.sin (Real.sqrt |v|)).sum
+        - 4189828872724339 / 10000000000000 * (x.length : ℝ) = -(x.map fun v => v * Real.sin (Real.sqrt |v|)).sum := by ring
+    rw [this, abs_neg]; exact key
+
+/-- `h1` lies in [0, 2] (its documented maximum value is 2). -/
+theorem h1_range (x0 x1 : ℝ) (t : List ℝ) : ∃ v, h1 (x0 :: x1 :: t) = some v ∧ 0 ≤ v ∧ v ≤ 2 := by
+  refine ⟨_, rfl, ?_, ?_⟩
+  · real_bridge; push_cast
+    apply div_nonneg
+    · positivity
+    · have := Real.sqrt_nonneg ((x0 - 86998 / 10000) ^ 2 + (x1 - 67665 / 10000) ^ 2); linarith
+  · real_bridge; push_cast
+    have hs := Real.sqrt_nonneg ((x0 - 86998 / 10000) ^ 2 + (x1 - 67665 / 10000) ^ 2)
+    rw [div_le_iff₀ (by linarith)]
+    have h1 := Real.sin_sq_le_one (x0 - x1 / 8)
+    have h2 := Real.sin_sq_le_one (x1 + x0 / 8)
+    nlinarith
+
+/-- `royal_road2` adds the royal-road-1 score of every schema order `order·2^k < order²`; in
+particular (for `order ≥ 2`) it is at least `royal_road1` of the base order, and for `order = 1` no schema
+level exists and the value is 0. -/
+theorem royal_road2_ge_road1 (x : List Bool) (order : Nat) (ho : 2 ≤ order) (v v1 : Nat)
+    (h2 : royalRoad2 x order = some v) (h1 : royalRoad1 x order = some v1) : v1 ≤ v := by
+  unfold royalRoad2 at h2
+  simp only [royalRoad2Loop] at h2
+  have : order < order * order := by nlinarith
+  rw [if_pos this, h1] at h2
+  have := royalRoad2Loop_ge _ _ _ _ _ _ h2
+  omega
+
+example : (2 : Nat) ≤ 8 ∧ (royalRoad2 [true, true] 2).isSome = true ∧ (royalRoad1 [true, true] 2).isSome = true := by decide
+
+theorem royal_road2_order1 (x : List Bool) : royalRoad2 x 1 = some 0 := by
+  simp [royalRoad2, royalRoad2Loop]
+
+/-- a population of identical individuals has diversity 0 -/
+theorem popDiversity_equal (x : List ℝ) (n : Nat) : popDiversity (List.replicate (n + 1) x) = some 0 := by
+  have hpop : List.replicate (n + 1) x = x :: List.replicate n x := rfl
+  unfold popDiversity
+  rw [hpop]
+  simp only
+  rw [← hpop]
+  real_bridge
+  simp only [Nat.cast_zero]
+  rw [zeros_as_map, fold_replicate]
+  have hmean : (x.map fun xi => ((0 : ℝ) + ((n + 1 : Nat) : ℝ)) * xi).map (fun di => di / (((List.replicate (n + 1) x).length : Nat) : ℝ)) = x := by
+    rw [List.map_map]
+    conv_rhs => rw [← List.map_id x]
+    apply List.map_congr_left; intro a _
+    simp only [Function.comp, List.length_replicate, id]
+    have : ((n + 1 : Nat) : ℝ) ≠ 0 := by positivity
+    field_simp
+    ring
+  rw [hmean]
+  have hz : ((List.replicate (n + 1) x).map fun y => (x.zip y).map fun p => (p.1 - p.2) * (p.1 - p.2)).flatten.sum = 0 := by
+    apply sum_zero_of_all_zero
+    intro d hd
+    simp only [List.mem_flatten, List.mem_map] at hd
+    obtain ⟨l, ⟨y, hy, rfl⟩, hd⟩ := hd
+    rw [List.eq_of_mem_replicate hy] at hd
+    simp only [List.mem_map] at hd
+    obtain ⟨p, hp, rfl⟩ := hd
+    rw [mem_zip_self x p hp]; ring
+  rw [hz]; simp
+
+/-- with positive `c` every Shekel term is positive, hence the function is positive wherever it is defined -/
+theorem shekel_pos (x : List ℝ) (a : List (List ℝ)) (c : List ℝ) (hc : ∀ ci ∈ c, 0 < ci) (hne : c ≠ [])
+    (v : ℝ) (h : shekel x a c = some v) : 0 < v := by
+  unfold shekel at h
+  split at h
+  · simp at h
+  · rw [Option.map_eq_some_iff] at h
+    obtain ⟨ts, hts, rfl⟩ := h
+    have f2 := mapM_forall2 _ _ _ hts
+    have hpos : ∀ d ∈ ts, 0 < d := by
+      intro d hd
+      obtain ⟨p, hp, hr⟩ := forall2_mem_right f2 d hd
+      unfold shekelTerm at hr
+      split at hr
+      · simp at hr
+      · simp only [Option.some.injEq] at hr
+        rw [← hr]; real_bridge; push_cast
+        have h1 : 0 < p.1 := hc p.1 (List.of_mem_zip hp).1
+        have h2 : 0 ≤ ((x.zip p.2).map fun q => (q.1 - q.2) ^ 2).sum := sum_map_nonneg _ _ (fun _ _ => sq_nonneg _)
+        positivity
+    have hlen : ts ≠ [] := by
+      intro he; rw [he] at f2
+      cases hz : c.zip a with
+      | nil =>
+        have : (c.zip a).length = 0 := by rw [hz]; rfl
+        rw [List.length_zip] at this
+        have hc0 : 0 < c.length := List.length_pos_of_ne_nil hne
+        omega
+      | cons q r => rw [hz] at f2; cases f2
+    real_bridge
+    cases ts with
+    | nil => exact absurd rfl hlen
+    | cons d r =>
+      simp only [List.sum_cons]
+      have := hpos d (by simp)
+      have := sum_nonneg_of_mem r (fun e he => le_of_lt (hpos e (by simp [he])))
+      linarith
+
+example : (∀ ci ∈ ([0.002, 0.005] : List ℝ), 0 < ci) ∧ ([0.002, 0.005] : List ℝ) ≠ [] := by
+  constructor
+  · intro ci h; simp at h; rcases h with rfl | rfl <;> norm_num
+  · simp
 
 end C20
